@@ -68,7 +68,7 @@ def _sha_loops(fn, helper, blk):
          "decreases": "rounds - cnt"},
     ]
 
-SHA_EXTRA = {"late_src": ["models/snprintf.c"], "timeout": 2400, "mem_gb": 10, "set_cap": 128, "tier": "thorough"}
+SHA_EXTRA = {"late_src": ["models/snprintf.c"], "timeout": 5400, "mem_gb": 10, "set_cap": 128, "tier": "thorough"}
 JOBS += [
     _method("sha256crypt", "M_sha256crypt", _sha_loops("_crypt_crypt_sha256crypt_rn", "SHA256_Update_recycled", 32),
             ["crypt_sha256crypt_rn", "SHA256_Update_recycled"], extra=SHA_EXTRA),
